@@ -382,15 +382,18 @@ class C06(Check):
             pos = 0
             for (i, c), obs in zip(hist, all_obs):
                 m, fm, fi = [], [], []
+                covered = 1       # a history is within the theorem's hypotheses iff every step is
                 for ln, res in zip(lines[pos:pos + len(obs)], outs[pos:pos + len(obs)]):
                     if res.startswith("!") or res.startswith("#"):
                         raise RuntimeError(f"C06: driver rejected case {ln[:300]} -> {res[:100]}")
                     r = common.unsx(res)
                     m.append(r[0])
+                    if len(r) < 5 or r[4] != 1:
+                        covered = 0
                     fm.extend(x for x in common.names(r[1]) if x not in fm)
                     fi.extend(x for x in common.names(r[2]) if x not in fi)
                 pos += len(obs)
-                out[i] = (c, HistObs(obs), m, fm, fi, [])
+                out[i] = (c, HistObs(obs), m, fm, fi, [[], covered])
         return out
 
     def nontrivial(self, c, obs):
